@@ -897,6 +897,67 @@ func (P *Prog) CallEvent(pred func(*CallSite) bool, val int8) func(ssa.Instructi
 	}
 }
 
+// InstrEvent is CallEvent for arbitrary instructions: an instruction matches when pred holds for it, or (for val
+// T) when it is a call to a single repository function every success path of which passes a matching instruction
+// (depth <= 2). It lets a rule about "the status is set to X" survive the extraction of that step into a helper.
+func (P *Prog) InstrEvent(pred func(ssa.Instruction) bool, val int8) func(ssa.Instruction) (bool, int8) {
+	memo := map[*ssa.Function]bool{}
+	var always func(fn *ssa.Function, depth int) bool
+	always = func(fn *ssa.Function, depth int) bool {
+		if v, ok := memo[fn]; ok {
+			return v
+		}
+		memo[fn] = false
+		if fn == nil || len(fn.Blocks) == 0 || !P.isRepoFunc(fn) {
+			return false
+		}
+		ps := analyzePaths(fn, []Atom{{Name: "done", Event: func(in ssa.Instruction) (bool, int8) {
+			if pred(in) {
+				return true, T
+			}
+			c, ok := in.(*ssa.Call)
+			if ok && depth < 2 {
+				if callees := P.CalleesOfCall(c); len(callees) == 1 && always(callees[0], depth+1) {
+					return true, T
+				}
+			}
+			return false, U
+		}}}, false)
+		rets := SuccessReturns(fn)
+		ok := len(rets) > 0
+		if fn.Signature.Results().Len() == 0 {
+			// no error result: every return counts
+			rets = nil
+			for _, b := range fn.Blocks {
+				if ret, isRet := b.Instrs[len(b.Instrs)-1].(*ssa.Return); isRet {
+					rets = append(rets, ret)
+				}
+			}
+			ok = len(rets) > 0
+		}
+		for _, ret := range rets {
+			if bad := ps.Require(ret, func(v map[string]bool) bool { return v["done"] }); len(bad) > 0 {
+				ok = false
+			}
+		}
+		memo[fn] = ok
+		return ok
+	}
+	return func(in ssa.Instruction) (bool, int8) {
+		if pred(in) {
+			return true, val
+		}
+		if val == T {
+			if c, ok := in.(*ssa.Call); ok {
+				if callees := P.CalleesOfCall(c); len(callees) == 1 && always(callees[0], 0) {
+					return true, val
+				}
+			}
+		}
+		return false, U
+	}
+}
+
 var siteIndex map[ssa.CallInstruction]*CallSite
 
 func (P *Prog) siteOf(c ssa.CallInstruction) *CallSite {
